@@ -23,6 +23,7 @@ EXPLANATION = (
     "inserted redirect and of the attribution calls (T4)."
 )
 NOT_DECIDED = "URL <-> name@version round trip (string arithmetic in recommended_registry_package_url(_to_nv)); exports-map semantics"
+CONFIGS = ["default", "nofastcheck"]  # thorough tier also analyses the build without fast_check / symbols
 ASSUMPTIONS = []
 
 
